@@ -82,12 +82,24 @@ func TestStreamPacket(t *testing.T) {
 		r := &Rng{s: seed*1000003 + uint64(i)*7919}
 		n := 2 + r.Intn(3)
 		relay := n >= 3 && r.Chance(70)
+		deep := i%4 == 3 || os.Getenv("VERIF_PROFILE") == "deep"
+		if deep {
+			n, relay = 2, false
+		}
 		w := NewWorld(t, n)
 		g := &PacketGen{w: w, r: r, stats: map[string]int{}, relay: relay}
-		g.Run(nops)
+		if deep {
+			g.RunDeep()
+		} else {
+			g.Run(nops)
+		}
 		out.add(w, g.stats)
 	}
-	out.write(t, "packet")
+	name := "packet"
+	if os.Getenv("VERIF_PROFILE") == "deep" {
+		name = "packetdeep"
+	}
+	out.write(t, name)
 }
 
 func runTransferStream(t *testing.T, name string, mt bool) {
